@@ -28,6 +28,7 @@ type Ev struct {
 	quiet bool
 	qvars []string // binders of enclosing spec quantifiers
 	wfSeen map[string]bool
+	qindex map[string][2]string // bound variable -> (offset term, select term) of its first use as a slice index
 	allocPred string // at a call site: the predicate 'allocated by this call'
 }
 
@@ -1289,7 +1290,14 @@ func (e *Ev) index(n *ast.IndexExpr) Term {
 		e.boundsCheck(i, app("slen", x.S), n)
 		s := e.sortOf(u.Elem())
 		h := e.elemHeap(s)
-		return Term{S: app("select", app("select", h, app("sarr", x.S)), app("+", app("soff", x.S), i)), Sort: s, T: u.Elem(), Signed: isSigned(u.Elem())}
+		idx := app("+", app("soff", x.S), i)
+		sel := app("select", app("select", h, app("sarr", x.S)), idx)
+		if e.spec && e.qindex != nil && strings.HasPrefix(i, "q$") && !strings.Contains(i, " ") {
+			if _, done := e.qindex[i]; !done && !strings.Contains(x.S, i) {
+				e.qindex[i] = [2]string{app("soff", x.S), sel}
+			}
+		}
+		return Term{S: sel, Sort: s, T: u.Elem(), Signed: isSigned(u.Elem())}
 	case *types.Map:
 		k := e.toType(e.ev(n.Index), u.Key(), n)
 		l := &Loc{Kind: "mapelem", Ref: x.S, Idx: k.S, T: u.Elem(), Name: e.mapHeapBase(u)}
@@ -1505,7 +1513,7 @@ func (e *Ev) wfSlice(t Term) {
 	if e.wfSeen == nil {
 		e.wfSeen = map[string]bool{}
 	}
-	key := c + "|" + strings.Join(e.qvars, ",")
+	key := c
 	if e.u.wfDone[key] {
 		return
 	}
@@ -1513,8 +1521,15 @@ func (e *Ev) wfSlice(t Term) {
 		e.u.wfDone = map[string]bool{}
 	}
 	e.u.wfDone[key] = true
-	if len(e.qvars) > 0 {
-		c = fmt.Sprintf("(forall (%s) %s)", strings.Join(e.qvars, " "), c)
+	var used []string
+	for _, qv := range e.qvars {
+		name := qv[1:strings.Index(qv, " ")]
+		if strings.Contains(t.S, name) {
+			used = append(used, qv)
+		}
+	}
+	if len(used) > 0 {
+		c = fmt.Sprintf("(forall (%s) %s)", strings.Join(used, " "), c)
 	}
 	e.define(c)
 }
